@@ -1,4 +1,5 @@
-(** C17 — lemmas.  Part 1: offset_to_location (both versions share [go]). *)
+(** C17 — lemmas.  Part 1: offset_to_location (the code [Cur] and the pre-6f9363a
+    transliteration [Old] share [go]); the [Old]-specific lemmas are historical. *)
 From Coq Require Import List Arith NArith Bool Lia Sorting.Sorted Sorting.Permutation.
 From JrV Require Import C17.Model.
 Import ListNotations.
@@ -443,9 +444,9 @@ Proof.
 Qed.
 
 (** what the CURRENT code computes for an offset whose preceding text is ASCII *)
-Lemma cur_items_split file o :
+Lemma old_items_split file o :
   forallb is_ascii (firstn (N.to_nat o) file) = true -> o <= blen file ->
-  exists c post, items_of Cur file = enumerate_from 0 (firstn (N.to_nat o) file) ++ (o, c) :: post
+  exists c post, items_of Old file = enumerate_from 0 (firstn (N.to_nat o) file) ++ (o, c) :: post
                  /\ N.of_nat (length (firstn (N.to_nat o) file)) = o.
 Proof.
   intros Ha Hle. unfold items_of.
@@ -472,26 +473,26 @@ Proof.
   simpl. rewrite app_nil_r. apply firstn_all2. lia.
 Qed.
 
-Lemma cur_sorted file : StronglySorted N.lt (map fst (items_of Cur file)).
+Lemma old_sorted file : StronglySorted N.lt (map fst (items_of Old file)).
 Proof. unfold items_of. apply enum_sorted. pose proof (blen_ge_length file). lia. Qed.
 
-Lemma loc_cur_ascii_prefix file offs i o :
+Lemma loc_old_ascii_prefix file offs i o :
   NoDup offs ->
   forallb is_ascii (firstn (N.to_nat (fold_right N.max 0 offs)) file) = true ->
   (forall o', In o' offs -> o' <= blen file) ->
   nth_error offs i = Some o ->
-  core (nth i (offset_to_location Cur file offs) zero_loc) =
+  core (nth i (offset_to_location Old file offs) zero_loc) =
   (o, spec_line (encode file) o, spec_col (encode file) o + 1, spec_line_start (encode file) o).
 Proof.
   intros Hnd Ha Hle Hnth.
   assert (Hpre : forall o', In o' offs -> forallb is_ascii (firstn (N.to_nat o') file) = true).
   { intros o' Hi. eapply forallb_firstn_le; [|exact Ha]. pose proof (max_ge _ _ Hi). lia. }
   assert (Hio : In o offs) by (eapply nth_error_In; eauto).
-  destruct (cur_items_split file o (Hpre _ Hio) (Hle _ Hio)) as (c & post & Hsplit & Hlen).
-  rewrite (otl_spec Cur file offs i o (enumerate_from 0 (firstn (N.to_nat o) file)) c post (fun _ => Hnd) (cur_sorted file)); auto.
+  destruct (old_items_split file o (Hpre _ Hio) (Hle _ Hio)) as (c & post & Hsplit & Hlen).
+  rewrite (otl_spec Old file offs i o (enumerate_from 0 (firstn (N.to_nat o) file)) c post (fun _ => Hnd) (old_sorted file)); auto.
   - rewrite (scan_enum_ascii _ (Hpre _ Hio)). unfold rec_of, spec_line, spec_col, spec_line_start.
     rewrite (prefix_encode_ascii file o (Hpre _ Hio) Hlen). rewrite Hlen. reflexivity.
-  - intros o' Hi. destruct (cur_items_split file o' (Hpre _ Hi) (Hle _ Hi)) as (c' & post' & Hs' & _).
+  - intros o' Hi. destruct (old_items_split file o' (Hpre _ Hi) (Hle _ Hi)) as (c' & post' & Hs' & _).
     rewrite Hs'. rewrite map_app, in_app_iff. right. simpl. auto.
 Qed.
 
@@ -505,35 +506,35 @@ Proof.
   - apply andb_prop in H. destruct H. auto.
 Qed.
 
-Lemma loc_cur_restricted file offs i o :
+Lemma loc_old_restricted file offs i o :
   known_multibyte file offs = false -> known_dup offs = false ->
   (forall o', In o' offs -> o' <= blen file) ->
   nth_error offs i = Some o ->
-  core (nth i (offset_to_location Cur file offs) zero_loc) =
+  core (nth i (offset_to_location Old file offs) zero_loc) =
   (o, spec_line (encode file) o, spec_col (encode file) o + 1, spec_line_start (encode file) o).
 Proof.
   unfold known_multibyte, known_dup. intros H1 H2. apply negb_false_iff in H1, H2.
-  apply loc_cur_ascii_prefix; auto. apply nodupb_NoDup; auto.
+  apply loc_old_ascii_prefix; auto. apply nodupb_NoDup; auto.
 Qed.
 
-Lemma loc_cur_ascii_file file offs i o :
+Lemma loc_old_ascii_file file offs i o :
   forallb is_ascii file = true -> NoDup offs ->
   (forall o', In o' offs -> o' <= N.of_nat (length file)) ->
   nth_error offs i = Some o ->
-  core (nth i (offset_to_location Cur file offs) zero_loc) = (o, spec_line file o, spec_col file o + 1, spec_line_start file o).
+  core (nth i (offset_to_location Old file offs) zero_loc) = (o, spec_line file o, spec_col file o + 1, spec_line_start file o).
 Proof.
   intros Ha Hnd Hle Hn. rewrite <- (encode_ascii _ Ha) at 2 3 4.
-  apply loc_cur_ascii_prefix; auto.
+  apply loc_old_ascii_prefix; auto.
   - rewrite <- (firstn_skipn (N.to_nat (fold_right N.max 0 offs)) file) in Ha.
     rewrite forallb_app in Ha. apply andb_prop in Ha. tauto.
   - intros o' Hi. rewrite (blen_ascii _ Ha). auto.
 Qed.
 
-Lemma loc_multibyte_refuted :
+Lemma loc_old_multibyte_refuted :
   exists file offs i o,
     NoDup offs /\ (forall o', In o' offs -> o' <= blen file) /\ nth_error offs i = Some o /\
     known_multibyte file offs = true /\
-    c_line (nth i (offset_to_location Cur file offs) zero_loc) <> spec_line (encode file) o.
+    c_line (nth i (offset_to_location Old file offs) zero_loc) <> spec_line (encode file) o.
 Proof.
   (* "é\na\nb", byte offset 2 = the first newline (line 1); the code answers for character 2 *)
   exists [233; 10; 97; 10; 98], [2], 0%nat, 2. repeat split.
@@ -542,9 +543,9 @@ Proof.
   - vm_compute. discriminate.
 Qed.
 
-Lemma loc_multibyte_unmatched_refuted :
+Lemma loc_old_unmatched_refuted :
   exists file offs, NoDup offs /\ (forall o', In o' offs -> o' <= blen file) /\
-    offset_to_location Cur file offs = [zero_loc; zero_loc].
+    offset_to_location Old file offs = [zero_loc; zero_loc].
 Proof.
   (* "ééééé\nerror" : span of `error` = bytes 11..16, the file has only 11 characters *)
   exists [233; 233; 233; 233; 233; 10; 101; 114; 114; 111; 114], [11; 16]. repeat split.
@@ -552,11 +553,11 @@ Proof.
   - intros o' [H|[H|[]]]; subst; vm_compute; discriminate.
 Qed.
 
-Lemma loc_duplicates_refuted :
+Lemma loc_old_duplicates_refuted :
   exists file offs i o,
     forallb is_ascii file = true /\ (forall o', In o' offs -> o' <= blen file) /\
     nth_error offs i = Some o /\ known_dup offs = true /\
-    c_line (nth i (offset_to_location Cur file offs) zero_loc) <> spec_line (encode file) o.
+    c_line (nth i (offset_to_location Old file offs) zero_loc) <> spec_line (encode file) o.
 Proof.
   exists [97; 98], [1; 1], 1%nat, 1. repeat split.
   - intros o' [H|[H|[]]]; subst; vm_compute; discriminate.
@@ -582,10 +583,10 @@ Proof.
 Qed.
 
 (** end to end for one span [a, b): what the trace line shows *)
-Lemma reported_position file a b :
+Lemma reported_position_old file a b :
   known_multibyte file [a; b] = false -> a <> b -> a <= blen file -> b <= blen file ->
   spec_line (encode file) a = spec_line (encode file) b ->
-  let locs := offset_to_location Cur file [a; b] in
+  let locs := offset_to_location Old file [a; b] in
   let p := print_loc (nth 0 locs zero_loc) (nth 1 locs zero_loc) in
   printed_line p = spec_line (encode file) a /\ printed_col p = spec_col (encode file) a.
 Proof.
@@ -593,26 +594,12 @@ Proof.
   assert (Hd : known_dup [a; b] = false).
   { unfold known_dup. simpl. destruct (N.eqb_spec a b); [contradiction|reflexivity]. }
   assert (Hle : forall o', In o' [a; b] -> o' <= blen file) by (intros o' [H|[H|[]]]; subst; auto).
-  pose proof (loc_cur_restricted file [a; b] 0 a Hk Hd Hle eq_refl) as H0.
-  pose proof (loc_cur_restricted file [a; b] 1 b Hk Hd Hle eq_refl) as H1.
+  pose proof (loc_old_restricted file [a; b] 0 a Hk Hd Hle eq_refl) as H0.
+  pose proof (loc_old_restricted file [a; b] 1 b Hk Hd Hle eq_refl) as H1.
   fold locs in H0, H1. unfold core in H0, H1. inversion H0. inversion H1.
   destruct (print_same_line (nth 0 locs zero_loc) (nth 1 locs zero_loc)) as [P1 P2].
   { unfold known_multiline. apply negb_false_iff. apply N.eqb_eq. congruence. }
   subst p. rewrite P1, P2. split; [congruence|]. rewrite H4. lia.
-Qed.
-
-(** JsFormat prints the mapper's column as it is: always one more than the column *)
-Lemma jsformat_column file a b :
-  known_multibyte file [a; b] = false -> a <> b -> a <= blen file -> b <= blen file ->
-  let locs := offset_to_location Cur file [a; b] in
-  print_js (nth 0 locs zero_loc) = (spec_line (encode file) a, spec_col (encode file) a + 1).
-Proof.
-  intros Hk Hne Ha Hb locs.
-  assert (Hd : known_dup [a; b] = false).
-  { unfold known_dup. simpl. destruct (N.eqb_spec a b); [contradiction|reflexivity]. }
-  assert (Hle : forall o', In o' [a; b] -> o' <= blen file) by (intros o' [H|[H|[]]]; subst; auto).
-  pose proof (loc_cur_restricted file [a; b] 0 a Hk Hd Hle eq_refl) as H0.
-  fold locs in H0. unfold core in H0. inversion H0. unfold print_js. congruence.
 Qed.
 
 (* ------------------------------------------------------------------ tiling *)
@@ -672,18 +659,18 @@ Qed.
 (** "local x = 1;\n  é" with span [15, 17) is outside the multi-byte class only if ...; take
     the ASCII-before case: text "// c\nerror \"é\"" , span of `error` = [5, 10). *)
 Definition ex_file : list N := [47; 47; 32; 99; 10; 101; 114; 114; 111; 114; 32; 34; 233; 34].
-Example loc_cur_example :
+Example loc_old_example :
   known_multibyte ex_file [5; 10] = false /\ known_dup [5; 10] = false /\
   (forall o', In o' [5; 10] -> o' <= blen ex_file) /\
   existsb (fun c => negb (is_ascii c)) ex_file = true /\
-  map core (offset_to_location Cur ex_file [5; 10]) = [(5, 2, 2, 5); (10, 2, 7, 5)].
+  map core (offset_to_location Old ex_file [5; 10]) = [(5, 2, 2, 5); (10, 2, 7, 5)].
 Proof.
   repeat split; try (vm_compute; reflexivity).
   intros o' [H|[H|[]]]; subst; vm_compute; discriminate.
 Qed.
 
 Example reported_position_example :
-  let locs := offset_to_location Cur ex_file [5; 10] in
+  let locs := offset_to_location Old ex_file [5; 10] in
   print_loc (nth 0 locs zero_loc) (nth 1 locs zero_loc) = (2, 1, Some (None, 7)).
 Proof. vm_compute. reflexivity. Qed.
 
